@@ -256,6 +256,18 @@ func execRoundtrip(a []string) Result {
 		default:
 			blk = rawCborBlock([]byte{0x18, byte(100 + k)})
 		}
+		// the last attachment is, in a third of the cases, a block of no bytes at all (hashed, or inlined
+		// in an identity CID)
+		if k == nattach-1 && id >= 10000 {
+			switch (aseed >> 24) % 6 {
+			case 0:
+				h, _ := mh.Sum([]byte{}, mh.SHA2_256, -1)
+				blk = block.NewBlock(cidlink.Link{Cid: cid.NewCidV1(0x55, h)}, []byte{})
+			case 1:
+				h, _ := mh.Sum([]byte{}, mh.IDENTITY, -1)
+				blk = block.NewBlock(cidlink.Link{Cid: cid.NewCidV1(0x55, h)}, []byte{})
+			}
+		}
 		if id >= 10000 {
 			extra[blk.Link().String()] = id
 		}
